@@ -44,6 +44,19 @@ def gen_notes(chk, rng, note_max):
     sessions = []
     keys = ["ReadProxyAgentStatusFile", "FileVersion", "k"]
     vals = ["success", "error", "transitioning", ""]
+    # the monitor loop's shape: every iteration reports on the status file, and when that was readable, on the file version
+    for _ in range(6 if chk.tier == "quick" else 100):
+        s = ["svc new"]
+        ver = rng.pick(["success", "error"])
+        for i in range(rng.rand_range(130, 400)):
+            readable = not rng.chance(1, 40)
+            s.append(f"svc note {vlib.hx(keys[0])} {vlib.hx('success' if readable else 'error')}")
+            if readable:
+                if rng.chance(1, 90):
+                    ver = rng.pick(["success", "error"])
+                s.append(f"svc note {vlib.hx(keys[1])} {vlib.hx(ver)}")
+        sessions.append(s)
+        chk.count("monitor_shaped_sessions")
     for _ in range(30 if chk.tier == "quick" else 600):
         s = ["svc new"]
         n = rng.rand_range(50, 900)
@@ -136,7 +149,16 @@ def run(chk):
     lines = [l for s in sessions for l in s]
     nlines = [l for s in nsessions for l in s]
     # implementation
-    impl_in = "\n".join(lines + [l + f" {note_max}" if l.startswith("svc note") else l for l in nlines]) + "\n"
+    # the two streams the monitor loop feeds are sent under the key constants the code itself uses (a collision of the two
+    # constants merges the streams); any other key goes in as text
+    real = {vlib.hx("ReadProxyAgentStatusFile"): "status", vlib.hx("FileVersion"): "version"}
+
+    def impl_line(l):
+        t = l.split(" ")
+        if l.startswith("svc note") and t[2] in real:
+            return f"svc stream {real[t[2]]} {t[3]} {note_max}"
+        return l + f" {note_max}" if l.startswith("svc note") else l
+    impl_in = "\n".join(lines + [impl_line(l) for l in nlines]) + "\n"
     rc, so, se = vlib.run_harness(binp, "health", impl_in)
     if rc != 0:
         chk.broken.append({"kind": "harness", "name": "health engine", "why": se[-800:]})
